@@ -27,7 +27,7 @@ def flavour_name(spec):
 
 
 def flavour_flags(spec):
-    return ['-Zmir-opt-level=%d' % spec['opt'],
+    return ['-Zmir-opt-level=%d' % spec['opt'], '-Zalways-encode-mir',
             '-Cdebug-assertions=%s' % ('on' if spec['da'] else 'off'),
             '-Coverflow-checks=%s' % ('on' if spec['oc'] else 'off'),
             '-Cpanic=%s' % spec['panic'], '-Awarnings']
@@ -65,6 +65,44 @@ def cfg_predicates(repo):
             if re.search(r'\bdebug_assert(_eq|_ne)?\s*!', text):
                 atoms.add(('debug_assertions', None))     # the macro expands to `if cfg!(debug_assertions) {..}`
     return atoms
+
+
+def build_time_inputs(repo):
+    """Constructs through which the compiled program can depend on things other than the crate's own sources and
+    flags: compile-time file inclusion from outside src/, inline/global assembly, proc-macro dependencies."""
+    import re
+    out = []
+    srcdir = os.path.join(repo, 'src')
+    for root, _d, files in os.walk(srcdir):
+        for fn in files:
+            if not fn.endswith('.rs'):
+                continue
+            path = os.path.join(root, fn)
+            text = open(path, encoding='utf-8', errors='replace').read()
+            for m in re.finditer(r'\b(include_bytes|include_str|include)\s*!\s*\(\s*(.*?)\)', text, re.S):
+                arg = m.group(2).strip()
+                lit = re.match(r'^"([^"]*)"\s*,?$', arg)
+                ok = False
+                if lit:
+                    tgt = os.path.normpath(os.path.join(root, lit.group(1)))
+                    ok = not os.path.isabs(lit.group(1)) and tgt.startswith(os.path.normpath(repo) + os.sep) and os.path.exists(tgt)
+                if not ok:
+                    out.append('%s!(%s) in %s reads a file that is not part of the crate' % (m.group(1), arg[:60], os.path.relpath(path, repo)))
+            if re.search(r'\b(global_asm|asm|naked_asm)\s*!', text):
+                out.append('assembly in %s' % os.path.relpath(path, repo))
+    # dependencies: a proc-macro runs arbitrary code inside the compiler
+    try:
+        man = open(os.path.join(repo, 'Cargo.toml')).read()
+    except OSError:
+        man = ''
+    for m in re.finditer(r'(?m)^\s*([A-Za-z0-9_\-]+)\s*=\s*\{[^}]*path\s*=\s*"([^"]+)"', man):
+        dep_manifest = os.path.join(repo, m.group(2), 'Cargo.toml')
+        try:
+            if re.search(r'(?m)^\s*proc-macro\s*=\s*true', open(dep_manifest).read()):
+                out.append('proc-macro dependency %s (%s)' % (m.group(1), m.group(2)))
+        except OSError:
+            out.append('path dependency %s whose manifest cannot be read' % m.group(1))
+    return out
 
 
 def manifest_features(repo):
@@ -228,13 +266,22 @@ def toolchain_skew(repo):
             out = collections.defaultdict(collections.Counter)
             cur = None
             for line in open(files[0], encoding='utf-8', errors='replace'):
-                m = re.match(r'^(?:const )?fn (.*?)\(', line)
+                m = re.match(r'^fn (.+?)\((?=_\d+:|\))', line) or re.match(r'^(?:const|static(?: mut)?) (\S+?): ', line)
                 if m:
                     cur = re.sub(r'src/[^>]*?:\d+:\d+: \d+:\d+', 'src', m.group(1))
                     continue
+                if cur is None or line.lstrip().startswith(('//', 'debug ', 'let ', 'scope')):
+                    continue
                 m = re.search(r'= (.+?)\((?:.*)\) -> (?:\[return|unwind|bb)', line)
-                if m and cur:
-                    out[cur][re.sub(r'\s+', ' ', m.group(1))] += 1
+                if m:
+                    out[cur]['call ' + re.sub(r'\s+', ' ', m.group(1))] += 1
+                # constants the compiler evaluated (values of consts that depend on the library's types differ
+                # between toolchains: sizes, layouts, trait-impl sets)
+                for c in re.findall(r'const ([^;,\)\]]+)', line):
+                    out[cur]['const ' + c.strip()] += 1
+                m = re.search(r'switchInt\(.*?\) -> \[(.*?)\]', line)
+                if m:
+                    out[cur]['switch ' + re.sub(r'bb\d+', 'bb', m.group(1))] += 1
             tabs[tc] = out
     finally:
         shutil.rmtree(tmp, ignore_errors=True)
@@ -244,7 +291,7 @@ def toolchain_skew(repo):
         diffs.append('function `%s` exists only in the %s MIR' % (f, 'stable' if f in a else 'nightly'))
     for f in sorted(set(a) & set(b)):
         if a[f] != b[f]:
-            diffs.append('in `%s` stable calls %s where nightly calls %s' % (
+            diffs.append('in `%s` the stable MIR has %s where the nightly MIR has %s' % (
                 f, sorted((a[f] - b[f]).elements())[:3], sorted((b[f] - a[f]).elements())[:3]))
     return diffs
 
